@@ -112,7 +112,7 @@ def pool_scenarios(r, tier):
             ops += [dict(op='drop', f=1), dict(op='open'), dict(op='close')]
         if mode == 2 and s2 and len(s2) > 1:
             ops += [dict(op='drop', f=2), dict(op='open'), dict(op='close'), dict(op='index', f=2), dict(op='open')]
-        scs.append(dict(ops=ops, unicode=(k % 5) if (k % 5) in (1, 2) else 0))   # non-ASCII header path / attribute values
+        scs.append(dict(ops=ops, unicode=(k % 5) if (k % 5) in (1, 2) else 0, nonl=1 if k % 3 == 1 else 0))   # non-ASCII header path / attribute values
     return scs
 
 
